@@ -10,25 +10,65 @@
 //   - the worker printed a line and then exited  -> that line is the result (e.g. "ERR:internal ...")
 //   - the worker died without printing           -> "CRASH <signal or exit code>" (its stderr, with the
 //                                                   sanitizer report, goes to the supervisor's stderr)
+//   - the worker did not answer within 30 s      -> it is killed, the case is answered "HANG ..."
 #pragma once
 #include <cstdio>
 #include <cstring>
 #include <iostream>
 #include <string>
+#include <algorithm>
+#include <cerrno>
+#include <csignal>
+#include <cstdlib>
+#include <poll.h>
 #include <sys/wait.h>
 #include <unistd.h>
 #include <vector>
 
 namespace ltv {
 
+// read one line from fd with a deadline; 1 = line, 0 = EOF/error, -1 = timeout
+inline int read_line_timeout(int fd, std::string& carry, std::string& line, int timeout_ms) {
+  for (;;) {
+    size_t nl = carry.find('\n');
+    if (nl != std::string::npos) {
+      line = carry.substr(0, nl);
+      carry.erase(0, nl + 1);
+      return 1;
+    }
+    struct pollfd pf{fd, POLLIN, 0};
+    int r = poll(&pf, 1, timeout_ms);
+    if (r == 0) return -1;
+    if (r < 0) { if (errno == EINTR) continue; return 0; }
+    char buf[65536];
+    ssize_t n = read(fd, buf, sizeof buf);
+    if (n <= 0) {
+      if (!carry.empty()) { line = carry; carry.clear(); return 1; }
+      return 0;
+    }
+    carry.append(buf, (size_t)n);
+  }
+}
+
 inline int supervise(int argc, char** argv, int (*worker_main)()) {
   if (argc > 1 && std::strcmp(argv[1], "--worker") == 0) return worker_main();
   signal(SIGPIPE, SIG_IGN);
+  // per-case wall watchdog: a worker that does not answer a case within this time is killed, the case is
+  // answered "HANG ..." and the next case gets a fresh worker (LTV_CASE_TIMEOUT_S overrides; default 30 s)
+  int timeout_ms = 30000;
+  if (const char* e = getenv("LTV_CASE_TIMEOUT_S")) timeout_ms = std::max(1, atoi(e)) * 1000;
   std::vector<std::string> lines;
   std::string l;
   while (std::getline(std::cin, l)) lines.push_back(l);
   size_t idx = 0;
+  size_t last_silent_exit = (size_t)-1;
+  int hangs = 0;
   while (idx < lines.size()) {
+    if (hangs >= 3) {   // the tree hangs repeatedly: three replays are enough, keep the run inside its time budget
+      printf("SKIPPED-AFTER-HANGS\n");
+      idx++;
+      continue;
+    }
     int to[2], from[2];
     if (pipe(to) != 0 || pipe(from) != 0) return 2;
     pid_t pid = fork();
@@ -41,38 +81,42 @@ inline int supervise(int argc, char** argv, int (*worker_main)()) {
     }
     close(to[0]);
     close(from[1]);
-    FILE* in = fdopen(from[0], "r");
-    bool alive = true;
+    std::string carry;
+    bool alive = true, hung = false;
     while (alive && idx < lines.size()) {
       std::string msg = lines[idx] + "\n";
-      if (write(to[1], msg.data(), msg.size()) != (ssize_t)msg.size()) alive = false;
-      char* buf = nullptr;
-      size_t cap = 0;
-      ssize_t n = alive ? getline(&buf, &cap, in) : -1;
-      if (n > 0) {
-        fwrite(buf, 1, (size_t)n, stdout);
-        if (buf[n - 1] != '\n') fputc('\n', stdout);
+      if (write(to[1], msg.data(), msg.size()) != (ssize_t)msg.size()) { alive = false; break; }
+      std::string out;
+      int r = read_line_timeout(from[0], carry, out, timeout_ms);
+      if (r == 1) {
+        printf("%s\n", out.c_str());
         idx++;
+      } else if (r == -1) {
+        hung = true;
+        alive = false;
       } else {
         alive = false;
       }
-      free(buf);
     }
     close(to[1]);
-    fclose(in);
+    if (hung) kill(pid, SIGKILL);
+    close(from[0]);
     int st = 0;
     waitpid(pid, &st, 0);
-    if (!alive && idx < lines.size()) {
-      // the worker ended: if it ended while a case was being processed without an answer, that case crashed
-      // (a worker that answered and then exited has already advanced idx)
-      static size_t last_reported = (size_t)-1;
-      bool answered_then_exited = WIFEXITED(st) && WEXITSTATUS(st) == 0;
-      if (!answered_then_exited || last_reported == idx) {
+    if (hung) {
+      printf("HANG no answer within %d s (worker killed)\n", timeout_ms / 1000);
+      idx++;
+      hangs++;
+    } else if (!alive && idx < lines.size()) {
+      // the worker ended without answering lines[idx]: a worker that answered the previous case and then left
+      // with exit 0 (after an internal_error) is normal; anything else is a crash of this case
+      bool clean_exit = WIFEXITED(st) && WEXITSTATUS(st) == 0;
+      if (!clean_exit || last_silent_exit == idx) {
         if (WIFSIGNALED(st)) printf("CRASH signal=%d\n", WTERMSIG(st));
         else printf("CRASH exit=%d\n", WIFEXITED(st) ? WEXITSTATUS(st) : -1);
         idx++;
       }
-      last_reported = idx;
+      last_silent_exit = idx;
     }
     fflush(stdout);
   }
